@@ -25,8 +25,8 @@ theorem be_eq_beBytes (k n : Nat) : be k n = beBytes k n := by
     have : k + 1 - 1 - (i + 1) = k - 1 - i := by omega
     rw [this]
 
-theorem twos_eq (k : Nat) (v : Int) : twos k v = beBytes k (v % ((256 ^ k : Nat) : Int)).toNat := by
-  rw [twos, be_eq_beBytes]
+theorem twos_eq (k : Nat) (v : Int) : twosV k v = beBytes k (v % ((256 ^ k : Nat) : Int)).toNat := by
+  rw [twosV, be_eq_beBytes]
 
 theorem pow256' (n : Nat) : 256 ^ n = 2 ^ (8 * n) := Vint.pow256 n
 
@@ -448,10 +448,10 @@ theorem lookup_map_snd {β γ} (g : β → γ) (c : Nat) : ∀ l : List (Nat × 
 theorem formatOf_eq (c : Nat) : formatOf c = (primCodec c).map fmt := by
   rw [formatOf, primCodec, formatTable_eq, lookup_map_snd]
 
-theorem twos8 (v : Int) : twos 8 v = beBytes 8 (bits64 v) := by rw [twos_eq, bits64]; rfl
-theorem twos4 (v : Int) : twos 4 v = beBytes 4 (bits32 v) := by rw [twos_eq, bits32]; rfl
-theorem twos2 (v : Int) : twos 2 v = beBytes 2 (bits16 v) := by rw [twos_eq, bits16]; rfl
-theorem twos1 (v : Int) : twos 1 v = beBytes 1 (bits8 v) := by rw [twos_eq, bits8]; rfl
+theorem twos8 (v : Int) : twosV 8 v = beBytes 8 (bits64 v) := by rw [twos_eq, bits64]; rfl
+theorem twos4 (v : Int) : twosV 4 v = beBytes 4 (bits32 v) := by rw [twos_eq, bits32]; rfl
+theorem twos2 (v : Int) : twosV 2 v = beBytes 2 (bits16 v) := by rw [twos_eq, bits16]; rfl
+theorem twos1 (v : Int) : twosV 1 v = beBytes 1 (bits8 v) := by rw [twos_eq, bits8]; rfl
 
 theorem fits8 (v : Int) : fitsTwos 8 v = inInt64 v := by
   rw [fitsTwos, inInt64]
@@ -535,7 +535,7 @@ theorem encodeScalarVal_spec (k : Codec) (x : CqlVal) (h : HasFormat (fmt k) x) 
     cases x <;> try (exact False.elim h)
     rename_i u s
     have hr : -2147483648 ≤ s ∧ s ≤ 2147483647 := h
-    rw [encodeScalarVal, if_pos (inInt32_of s hr), fmt, serializeScalar, writeDecimal, writeBigInt_eq_spec, Spec.int,
+    rw [encodeScalarVal, if_pos (inInt32_of s hr), fmt, serializeScalar, writeDecimal, writeBigInt_eq_spec, Spec.intV,
       twos4]
   case double =>
     cases x <;> try (exact False.elim h)
@@ -734,7 +734,7 @@ theorem decodeScalar_spec (k : Codec) (x : CqlVal) (h : HasFormat (fmt k) x) :
     cases x <;> try (exact False.elim h)
     rename_i u s
     have hr : -2147483648 ≤ s ∧ s ≤ 2147483647 := h
-    rw [decodeScalar, fmt, serializeScalar, Spec.int, twos4]
+    rw [decodeScalar, fmt, serializeScalar, Spec.intV, twos4]
     show (readDecimal (beBytes 4 (bits32 s) ++ minimalTwosComplement u) >>= _) = _
     rw [readDecimal_spec u s]
     show Res.ok (some (CqlVal.decimal u (toInt32 (bits32 s)))) = _
@@ -813,20 +813,20 @@ theorem ObOk_of_ElemOk (version : Nat) (P : CqlVal → Prop) (ser : CqlVal → B
     have : ser y = b := by cases hb; rfl
     rw [← this]; exact h2
 
-theorem int_natCast (n : Nat) (h : n < 4294967296) : Spec.int (n : Int) = writeInt n := by
-  rw [Spec.int, twos4, writeInt]
+theorem int_natCast (n : Nat) (h : n < 4294967296) : Spec.intV (n : Int) = writeInt n := by
+  rw [Spec.intV, twos4, writeInt]
   have : bits32 (n : Int) = n := by rw [bits32]; omega
   rw [this]
 
 theorem bytesOpt_eq (ob : Option Bytes) (h : ∀ b, ob = some b → b.length < 2147483648) : bytesOpt ob = writeBytes ob := by
   cases ob with
-  | none => rw [bytesOpt, writeBytes, Spec.int, twos4, writeInt]; rfl
+  | none => rw [bytesOpt, writeBytes, Spec.intV, twos4, writeInt]; rfl
   | some b =>
     have hb := h b rfl
     rw [bytesOpt, writeBytes, int_natCast _ (by omega), Nat.mod_eq_of_lt (by omega)]
 
-theorem shortBytes_eq (b : Bytes) (h : b.length < 65536) : shortBytes b = writeShortBytes (some b) := by
-  rw [shortBytes, writeShortBytes, Spec.short, be_eq_beBytes]
+theorem shortBytes_eq (b : Bytes) (h : b.length < 65536) : shortBytesV b = writeShortBytes (some b) := by
+  rw [shortBytesV, writeShortBytes, Spec.shortV, be_eq_beBytes]
   show _ = writeShort (b.length % 65536) ++ b
   rw [Nat.mod_eq_of_lt h, writeShort]
 
@@ -840,7 +840,7 @@ theorem writeCollectionSize_spec (version n : Nat) (h : CountOk version n) :
     rw [if_pos rfl, if_pos rfl, if_neg (by omega), int_natCast n (by omega)]
   | false =>
     rw [hf, if_neg (by decide)] at h
-    rw [if_neg (by decide), if_neg (by omega), if_neg (by decide), Spec.short, be_eq_beBytes, writeShort]
+    rw [if_neg (by decide), if_neg (by omega), if_neg (by decide), Spec.shortV, be_eq_beBytes, writeShort]
 
 theorem readCollectionSize_spec (version n : Nat) (h : CountOk version n) (rest : Bytes) :
     (readCollectionSize version).run (count version n ++ rest) = .ok (n, rest) := by
@@ -854,7 +854,7 @@ theorem readCollectionSize_spec (version n : Nat) (h : CountOk version n) (rest 
     rw [this]; rfl
   | false =>
     rw [hf, if_neg (by decide)] at h
-    rw [if_neg (by decide), if_neg (by decide), Spec.short, be_eq_beBytes]
+    rw [if_neg (by decide), if_neg (by decide), Spec.shortV, be_eq_beBytes]
     exact readShort_RT n h rest
 
 theorem element_length_ge (version : Nat) (ob : Option Bytes) : 2 ≤ (element version ob).length := by
@@ -863,10 +863,10 @@ theorem element_length_ge (version : Nat) (ob : Option Bytes) : 2 ≤ (element v
   | true =>
     rw [if_pos rfl]
     cases ob with
-    | none => rw [bytesOpt, Spec.int, twos_eq, beBytes_length]; omega
-    | some b => rw [bytesOpt, Spec.int, twos_eq, List.length_append, beBytes_length]; omega
+    | none => rw [bytesOpt, Spec.intV, twos_eq, beBytes_length]; omega
+    | some b => rw [bytesOpt, Spec.intV, twos_eq, List.length_append, beBytes_length]; omega
   | false =>
-    rw [if_neg (by decide), shortBytes, Spec.short, be_eq_beBytes, List.length_append, beBytes_length]; omega
+    rw [if_neg (by decide), shortBytesV, Spec.shortV, be_eq_beBytes, List.length_append, beBytes_length]; omega
 
 theorem writeElem_spec (version : Nat) (enc : Option CqlVal → Res (Option Bytes)) (o : Option CqlVal) (ob : Option Bytes)
     (henc : enc o = .ok ob) (hob : ObOk version ob) : writeElem version enc o = .ok (element version ob) := by
@@ -972,8 +972,8 @@ theorem readCollection_spec (version : Nat) (dec : Option Bytes → Res (Option 
 theorem count_length_ge (version n : Nat) : 2 ≤ (count version n).length := by
   rw [count]
   cases fourByte version with
-  | true => rw [if_pos rfl, Spec.int, twos_eq, beBytes_length]; omega
-  | false => rw [if_neg (by decide), Spec.short, be_eq_beBytes, beBytes_length]; omega
+  | true => rw [if_pos rfl, Spec.intV, twos_eq, beBytes_length]; omega
+  | false => rw [if_neg (by decide), Spec.shortV, be_eq_beBytes, beBytes_length]; omega
 
 /-! maps -/
 
@@ -1124,8 +1124,8 @@ theorem decodeC_none (version : Nat) (t : DataType) (hs : Supported t = true) : 
   | udt _ _ _ ts => rw [decodeC]; rfl
 theorem bytesOpt_length_ge (ob : Option Bytes) : 4 ≤ (bytesOpt ob).length := by
   cases ob with
-  | none => rw [bytesOpt, Spec.int, twos_eq, beBytes_length]; omega
-  | some b => rw [bytesOpt, Spec.int, twos_eq, List.length_append, beBytes_length]; omega
+  | none => rw [bytesOpt, Spec.intV, twos_eq, beBytes_length]; omega
+  | some b => rw [bytesOpt, Spec.intV, twos_eq, List.length_append, beBytes_length]; omega
 
 theorem serializeFields_length (version : Nat) (ts : List DataType) (fs : List (Option CqlVal)) (hne : ts ≠ [])
     (h : HasFields version ts fs) : (serializeFields version ts fs).length ≠ 0 := by
